@@ -565,3 +565,20 @@ def check_policy_wrapping(ctx):
     fp = [key(e["rhs"]) for b, i, e in sz.events("asg") if key(e["lhs"]) == "result.filter_policy"]
     ctx.check(len(fp) == 1 and "ipolicy" in fp[0] and "src->filter_policy" in fp[0], "T6-policy-wrapping", "sanitize", sz.name, sz.loc,
               "the sanitised options carry the wrapped policy iff the user set one", "result.filter_policy = %s" % fp)
+
+
+def check_capi_comparator(ctx):
+    """A comparator created through the C API has an order the library knows
+    nothing about: it must not carry the bytewise key-shortening hooks (index
+    keys shortened in byte order are not separators in the user's order, and
+    point lookups and seeks then land in the wrong block)."""
+    f = ctx.fn("ldb_c_comparator_create", "src/c.c")
+    st = {key(e["lhs"]): e for b, i, e in f.events("asg")}
+    whole = [key(e["rhs"]) for b, i, e in f.events("asg") if key(e["lhs"]) in ("cmp->rep", "(*cmp)")]
+    ok = all(k2 in st and const_val(st[k2]["rhs"]) == 0 for k2 in ("cmp->rep.shortest_separator", "cmp->rep.short_successor", "cmp->rep.user_comparator"))
+    ctx.check(ok and not whole, "T6-capi-comparator", "no-shortening-hooks", f.name, f.loc,
+              "a C-API comparator has no key-shortening hooks and is not an internal-key comparator",
+              "C-API comparator: hooks %s, whole-struct copy from %s" %
+              ({k2: (key(st[k2]["rhs"]) if k2 in st else None) for k2 in ("cmp->rep.shortest_separator", "cmp->rep.short_successor")}, whole))
+    ctx.check("cmp->rep.compare" in st and key(st["cmp->rep.compare"]["rhs"]) == "slice_compare", "T6-capi-comparator", "compare-shim", f.name, f.loc,
+              "comparisons go through the shim that calls the user's function", "C-API compare is %s" % (key(st["cmp->rep.compare"]["rhs"]) if "cmp->rep.compare" in st else None))
